@@ -325,7 +325,7 @@ func genC06(o *vcoq.Out, r *vcoq.Rand, tier string) error {
 	o.CaseType = "c06case"
 	o.Judge = "judge"
 	o.Shard = 120
-	o.Rule = "random messages of TestAllTypes (all field kinds, depth <= 2) and traits Brightness, AirTemperature, ElectricMode built by reflection from tiny value alphabets; read masks by class: nil, empty, single, multi (2-5 paths), duplicate, parent+child, child+parent, siblings, through-repeated-message (75% of paths walk POPULATED fields so projections are non-empty); a malformed stream with one corrupted path per mask (unknown segment, continuation through scalar / map / repeated scalar / repeated message, empty segment) alone or next to valid paths. Each (message, mask) is read by FilterClone (+Validate) and, for a third of them, also by Filter, Value.Get, Collection.List and the seed of Value.Pull. Non-trivial: non-empty mask on a non-empty message; distinct by the full case term."
+	o.Rule = "random messages of TestAllTypes (all field kinds, depth <= 2) and traits Brightness, AirTemperature, ElectricMode built by reflection from tiny value alphabets; read masks by class: nil, empty, single, multi (2-5 paths), duplicate, parent+child, child+parent, siblings, through-repeated-message (75% of paths walk POPULATED fields so projections are non-empty); a malformed stream with one corrupted path per mask (unknown segment, continuation through scalar / map / repeated scalar / repeated message, empty segment) alone or next to valid paths. Each (message, mask) is read by FilterClone (+Validate) and, for a third of them, also by Filter, Value.Get, Collection.List and the seed of Value.Pull. Event path: 45 backpressured streams per run (Collection.Pull + PullID over Add, Update, Delete, and with WithInclude an Update that stops matching; Value.Pull over seed + 2 Sets) with a read mask: the new AND old value of every event is judged against the projection of what the writes returned as stored. Non-trivial: non-empty mask on a non-empty message; distinct by the full case term."
 	g := &c06{o: o, r: r}
 	scale := 1
 	if tier == "thorough" {
@@ -390,6 +390,8 @@ func genC06(o *vcoq.Out, r *vcoq.Rand, tier string) error {
 		}
 		emit(msg, &fieldmaskpb.FieldMask{Paths: ps}, kind, "corrupt:"+kind.String())
 	}
+	// event path: masked, backpressured Pulls over a few writes (new and old values of every event)
+	g.streams(45 * scale)
 	// the inputs of the two defects repaired in pkg/masks/get.go, always present
 	st := &testproto.TestAllTypes{DefaultInt32: 7, DefaultForeignMessage: &testproto.ForeignMessage{C: 1, D: 2},
 		MapStringNestedMessage: map[string]*testproto.TestAllTypes_NestedMessage{"a": {A: 1}}, RepeatedInt32: []int32{1, 2}}
